@@ -209,6 +209,8 @@ package bttest
 //@ func newTable
 //@   property C14
 //@   requires tbl != nil
+//@   requires rows != nil
+//@   ensures old(tbl.ColumnFamilies) == nil ==> forall k string :: !(k in tbl.ColumnFamilies)
 //@   modifies tbl.ColumnFamilies
 //@   ensures result != nil && fresh(result) && result.def == tbl && result.rows == rows && tbl.ColumnFamilies != nil
 //@   ensures old(tbl.ColumnFamilies) != nil ==> tbl.ColumnFamilies == old(tbl.ColumnFamilies)
